@@ -832,6 +832,170 @@ func vfC18UnpackGenerated(res *vfResult) {
 	}
 }
 
+// vfC18Unpack13Generated: DTLS 1.3 datagrams built from unified-header records of all eight C/S/L shapes (RFC 9147
+// Figure 3; pion itself only ever sends S=1, L=1) must be accepted and split at the constructed boundaries.
+func vfC18Unpack13Generated(res *vfResult) {
+	for _, cid := range []int{0, 4, 8} {
+		r := vfRand("C18/unpack13-generated", cid)
+		cidBytes := vfRandBytes(r, cid) // one connection: every record carries the same ID
+		for n := 1; n <= 3; n++ {
+			// 2 bits (S, L) per record; the C bit is the same for every record of a datagram (one connection)
+			for shape := 0; shape < 1<<(2*n+1); shape++ {
+				var want [][]byte
+				var dg []byte
+				ok := true
+				c := shape>>(2*n)&1 == 1
+				if c && cid == 0 {
+					continue
+				}
+				for i := 0; i < n; i++ {
+					bits := shape >> (2 * i) & 3
+					sbit, l := bits&1 != 0, bits&2 != 0
+					if !l && i != n-1 {
+						ok = false // a record without a length field extends to the end of the datagram
+
+						break
+					}
+					first := byte(0x20 | r.IntN(4))
+					rec := []byte{first}
+					if c {
+						rec[0] |= 0x10
+						rec = append(rec, cidBytes...)
+					}
+					if sbit {
+						rec[0] |= 0x08
+						rec = append(rec, byte(r.IntN(256)), byte(r.IntN(256)))
+					} else {
+						rec = append(rec, byte(r.IntN(256)))
+					}
+					body := vfRandBytes(r, 17+r.IntN(30))
+					if l {
+						rec[0] |= 0x04
+						rec = binary.BigEndian.AppendUint16(rec, uint16(len(body)))
+					}
+					rec = append(rec, body...)
+					want = append(want, rec)
+					dg = append(dg, rec...)
+				}
+				if !ok {
+					continue
+				}
+				res.Eval(1)
+				name := fmt.Sprintf("UnpackDatagram13/cid%d", cid)
+				got, err := recordlayer.UnpackDatagram13(dg, cid, false, true)
+				if err != nil {
+					res.Violate("C18:"+name+":well-formed-datagram-rejected", fmt.Sprintf("%d well-formed unified-header records (C bit, then S/L per record: %0*b) rejected: %v", n, 2*n+1, shape, err),
+						map[string]any{"codec": name, "input": vfHex(dg)})
+
+					continue
+				}
+				same := len(got) == len(want)
+				for i := 0; same && i < len(want); i++ {
+					same = bytes.Equal(got[i], want[i])
+				}
+				if !same {
+					res.Violate("C18:"+name+":split-at-wrong-boundaries", fmt.Sprintf("%d constructed unified-header records came back as %d pieces (shapes %0*b)", n, len(got), 2*n+1, shape),
+						map[string]any{"codec": name, "input": vfHex(dg)})
+				}
+				// the record codec itself: decode, re-encode, same bytes
+				for _, rec := range want {
+					var cr recordlayer.CiphertextRecord13
+					if rec[0]&0x10 != 0 {
+						cr.Header.ConnectionID = make([]byte, cid)
+					}
+					if err := cr.Unmarshal(rec); err != nil {
+						res.Violate("C18:CiphertextRecord13:well-formed-record-rejected", fmt.Sprintf("first byte %#02x: %v", rec[0], err), map[string]any{"input": vfHex(rec)})
+
+						continue
+					}
+					// the encoder writes one canonical shape: decode(encode(x)) must be a fixed point from there on
+					out, err := cr.Marshal()
+					if err != nil {
+						res.Violate("C18:CiphertextRecord13:reencode-error", fmt.Sprintf("first byte %#02x: %v", rec[0], err), map[string]any{"input": vfHex(rec)})
+
+						continue
+					}
+					var cr2 recordlayer.CiphertextRecord13
+					if out[0]&0x10 != 0 {
+						cr2.Header.ConnectionID = make([]byte, cid)
+					}
+					if err := cr2.Unmarshal(out); err != nil {
+						res.Violate("C18:CiphertextRecord13:own-encoding-rejected", fmt.Sprintf("first byte %#02x -> %#02x: %v", rec[0], out[0], err), map[string]any{"input": vfHex(rec)})
+
+						continue
+					}
+					if out2, err := cr2.Marshal(); err != nil || !bytes.Equal(out2, out) || !bytes.Equal(cr2.EncryptedRecord, cr.EncryptedRecord) {
+						res.Violate("C18:CiphertextRecord13:not-a-fixed-point", fmt.Sprintf("first byte %#02x: decode/encode is not stable or loses the body (err %v)", rec[0], err), map[string]any{"input": vfHex(rec)})
+					}
+				}
+				res.Count("generated_datagrams13_unpacked", 1)
+			}
+		}
+	}
+}
+
+// vfC18HookedHello: a ServerHello / ClientHello that an application hook hands back with the same wire bytes but
+// in another in-memory form (every extension as extension.Raw) must be re-read from its encoding: what the
+// library then acts on is the decoded value, so both sides agree on what was negotiated.
+func vfC18HookedHello(t *testing.T, res *vfResult) {
+	raw := func(exts []extension.Value) []extension.Value {
+		out := make([]extension.Value, 0, len(exts))
+		for _, e := range exts {
+			d, err := e.MarshalData()
+			if err != nil {
+				out = append(out, e)
+
+				continue
+			}
+			out = append(out, extension.Raw{Type: e.ExtensionType(), Data: d})
+		}
+
+		return out
+	}
+	for _, side := range []string{"server-hello", "client-hello", "both"} {
+		side := side
+		synctest.Test(t, func(t *testing.T) {
+			cfg := vfBaseCfg(vfSuiteByName("ECDSA-GCM128"), "ecdsa")
+			cfg.CIDc, cfg.CIDs, cfg.SRTP, cfg.ALPN = 4, 6, 2, 1
+			co, so := cfg.Options(nil, nil)
+			if side != "client-hello" {
+				so = append(so, WithServerHelloMessageHook(func(sh handshake.MessageServerHello) handshake.Message {
+					sh.Extensions = raw(sh.Extensions)
+
+					return &sh
+				}))
+			}
+			if side != "server-hello" {
+				co = append(co, WithClientHelloMessageHook(func(ch handshake.MessageClientHello) handshake.Message {
+					ch.Extensions = raw(ch.Extensions)
+
+					return &ch
+				}))
+			}
+			p, err := vfNewPair(vfNewNet(), co, so)
+			res.Eval(1)
+			if err != nil {
+				return
+			}
+			ce, se := p.Handshake(30 * time.Second)
+			res.Count("hooked_hello_handshakes", 1)
+			name := "hooked-" + side
+			if ce != nil || se != nil {
+				res.Violate("C18:"+name+":same-bytes-other-form-not-understood", fmt.Sprintf("a hook returned the hello with every extension re-wrapped as extension.Raw (identical encoding); the handshake failed: client=%v server=%v", ce, se),
+					map[string]any{"codec": name})
+			} else {
+				cs, ss := vfSnapshot(p.C.Conn), vfSnapshot(p.S.Conn)
+				if cs.LocalCID != ss.RemoteCID || cs.RemoteCID != ss.LocalCID || len(cs.LocalCID) != 8 || len(ss.LocalCID) != 12 || cs.SRTP != ss.SRTP || cs.ALPN != ss.ALPN || cs.SRTP == 0 || cs.ALPN == "" {
+					res.Violate("C18:"+name+":negotiation-differs-from-encoding", fmt.Sprintf("client %+v / server %+v", cs, ss), map[string]any{"codec": name})
+				}
+				res.NonTrivial(name)
+			}
+			p.Close()
+			synctest.Wait()
+		})
+	}
+}
+
 // vfMixedCIDRemainder: the unconsumed remainder starts with a unified-header record carrying a CID
 // that differs from the first ciphertext record's CID (the documented discard rule).
 func vfMixedCIDRemainder(in, cat []byte, recs [][]byte, name string) bool {
@@ -1068,6 +1232,8 @@ func TestVF_C18(t *testing.T) {
 	res.Count("codecs", int64(len(names)))
 	vfC18Unpack(res, h)
 	vfC18UnpackGenerated(res)
+	vfC18Unpack13Generated(res)
+	vfC18HookedHello(t, res)
 	vfC18Values(res, codecs)
 	if res.Get("codecs_without_accepted_input") > 6 {
 		res.Inconc(fmt.Sprintf("%d codecs never accepted any input", res.Get("codecs_without_accepted_input")))
